@@ -322,6 +322,21 @@ def r3_reset_complete(ctx, rid: str = "C15.R3") -> None:
             r.ok(rid, q, "nested pipeline is run through ProcessingPipeline.apply (same reset)", f.loc)
         else:
             r.violation(rid, q, "self._nested_pipeline.apply(rule)", "nested pipeline no longer goes through ProcessingPipeline.apply", f.loc)
+    # apply(rule, state): the only state that may be handed in is the enclosing pipeline's state of this very rule
+    for q, fi in sorted(prog.funcs.items()):
+        if not fi.module.name.startswith("sigma."):
+            continue
+        for c in (x for x in walk_no_nested(fi.node) if isinstance(x, ast.Call) and isinstance(x.func, ast.Attribute) and x.func.attr == "apply"
+                  and (len(x.args) >= 2 or any(k.arg == "state" for k in x.keywords))):
+            recv = ctx.types.class_names(fi.module, c.func.value)
+            if pq not in recv and unparse(c.func.value) != "self._nested_pipeline":
+                continue
+            st_arg = c.args[1] if len(c.args) >= 2 else next(k.value for k in c.keywords if k.arg == "state")
+            loc = f"{fi.module.relpath}:{c.lineno}"
+            if unparse(c.func.value) == "self._nested_pipeline" and unparse(st_arg) == "self._pipeline.state":
+                r.ok(rid, q, "nested pipeline starts with a copy of the enclosing pipeline's state of this rule", loc)
+            else:
+                r.violation(rid, q, short(c, 100), f"a pipeline run is seeded with {unparse(st_arg)}: only the enclosing pipeline's own per-rule state may be handed to a nested pipeline, anything else carries state from one rule (or pipeline) into another", loc)
     # every reader of a nested pipeline's per-rule field sees this rule's value: the read is dominated by a run through
     # apply() (which resets) or by a fresh store to that field in the same function
     n_reads = 0
@@ -370,6 +385,11 @@ def r3_reset_complete(ctx, rid: str = "C15.R3") -> None:
 def _is_fresh(prog, fi: FuncInfo, v: Optional[ast.AST]) -> bool:
     if v is None:
         return False
+    if isinstance(v, ast.IfExp):
+        return _is_fresh(prog, fi, v.body) and _is_fresh(prog, fi, v.orelse)
+    if isinstance(v, ast.Call) and call_name(v) in ("dict", "list", "set") and len(v.args) == 1 and not v.keywords \
+            and isinstance(v.args[0], ast.Name) and v.args[0].id in fi.params() and v.args[0].id != "self":
+        return True   # a new object filled from an argument of this call (what may be passed is checked at the call sites)
     if isinstance(v, (ast.Dict, ast.List, ast.Set)) and not (getattr(v, "elts", None) or getattr(v, "keys", None)):
         return True
     if isinstance(v, ast.Call):
